@@ -768,7 +768,7 @@ def gen_exhaustive(tier):
     scopes = [(2, 1, 1), (2, 1, 2), (2, 1, 3), (2, 2, 1), (2, 2, 2), (2, 3, 1),
               (1, 1, 1), (1, 2, 1), (1, 2, 2), (1, 3, 2), (3, 1, 1), (3, 2, 1), (3, 1, 2), (4, 1, 1), (4, 1, 2)]
     if tier == "thorough":
-        scopes += [(2, 4, 1), (2, 3, 2), (2, 2, 3), (1, 4, 2), (3, 2, 2), (3, 3, 1), (4, 2, 1), (4, 3, 1), (1, 3, 3), (2, 5, 1)]
+        scopes += [(2, 4, 1), (2, 3, 2), (2, 2, 3), (1, 4, 2), (3, 2, 2), (3, 3, 1), (4, 2, 1), (1, 3, 3), (2, 5, 1)]
     for k, n, p in scopes:
         for bits in itertools.product((0, 1), repeat=k * n * p):
             it = iter(bits)
@@ -817,7 +817,7 @@ def u_ring_edges(ctx):
 
 # ---- unit 3: seeded random matrices ---------------------------------------------------------------------
 def gen_random(rng, tier):
-    count = 260 if tier == "quick" else 2500
+    count = 260 if tier == "quick" else 2000
     for i in range(count):
         k = rng.choice([2, 2, 2, 2, 1, 3, 4])
         n = rng.choice([1, 2, 3, 4, 5, 7, 10, 17, 30, 49, 60, 98, 103, 130, 200]) if i % 3 else rng.randint(1, 40)
@@ -834,7 +834,7 @@ def gen_random(rng, tier):
 
 
 @unit(P, "ring[seeded random call matrices]", "R", bounded=True,
-      note="bounded: 260 (quick) / 2500 (thorough) seeded matrices, ploidy 1-4, ntaxa 1-200, nvrnt 1-13, per-locus allele "
+      note="bounded: 260 (quick) / 2000 (thorough) seeded matrices, ploidy 1-4, ntaxa 1-200, nvrnt 1-13, per-locus allele "
            "frequency from {fixed, near-fixed, uniform random}; C and Fortran layouts; with and without labels")
 def u_ring_random(ctx):
     ctx.rule = ("seeded (VERIF_SEED) random sizes and per-locus patterns; distinct by (sizes, patterns, seed); every case "
@@ -844,7 +844,7 @@ def u_ring_random(ctx):
 
 # ---- unit 4: frequency exactness sweep over the number of chromosome copies --------------------------------
 def gen_sweep(tier):
-    top = 420 if tier == "quick" else 2600
+    top = 420 if tier == "quick" else 2400
     for n in range(1, top + 1):
         ploidies = (1, 2) if n > 260 else (1, 2, 3, 4)
         for k in ploidies:
@@ -852,7 +852,7 @@ def gen_sweep(tier):
 
 
 @unit(P, "ring[frequency exactness sweep over ploidy*ntaxa]", "R", bounded=True,
-      note="bounded: every ntaxa 1..420 (quick) / 1..2600 (thorough), ploidy 1-2 (1-4 up to 260 taxa); loci all-1, all-0, "
+      note="bounded: every ntaxa 1..420 (quick) / 1..2400 (thorough), ploidy 1-2 (1-4 up to 260 taxa); loci all-1, all-0, "
            "one copy 1, one copy 0, half; clauses afreq in [0,1], ==0/==1 iff fixed, maf, afixed, apoly, complement, acount")
 def u_ring_sweep(ctx):
     ctx.rule = ("exhaustive over ntaxa in the stated range; per size the boundary allele counts s in {0, 1, c/2, c-1, c}; "
